@@ -29,6 +29,10 @@ CHECKS = {
    technique="deterministic simulation: whole reader.ReadDocument against seeded chip personalisations and issuer worlds, reference-model oracle of the expected outcome",
    text="The complete unmodified read pipeline runs against a generated world (SimPKI issuer, personalised SimChip, trust store) stratified over access control x curve x suite, with seeded DG subsets/sizes, chip response policies, terminal maxLe, password routes, AA/CA arrangements and all session randomness. "
         "Oracle: every returned file byte-identical to the chip's; every supported DG listed and stored has been read; each supported mechanism successful (CA may be skipped after AA/CAM); nothing unsupported reported; PA success iff the chain is in the store; success required only inside the tolerated read-size envelope."),
+ "C11": dict(engine="e2e-faults", cat="fault_enumeration", ref="DESIGN.md 6.11",
+   technique="deterministic simulation with link fault injection: every exchange index x every fault variant enumerated per chip configuration, then seeded multi-fault plans",
+   text="For each of 12 chip configurations the fault-free read fixes the exchange count; every exchange index x 45 link fault variants (loss, truncation, garble, oversize, bare status words, replay, swap, SM data-object edits, chip power cycle, dead link) is run as its own simulation (quick: 3 configurations rotating with the seed; thorough: all 12), followed by seeded 2-5 fault plans biased to protocol transitions. "
+        "Oracle: the call returns within the step bound, never panics; files read under secure messaging that are returned equal the chip's files; reported successes are steps the chip's own session record shows completed; DataTrusted only with identical files from a trusted issuer."),
 }
 
 NOT_APPLICABLE = {
@@ -79,6 +83,7 @@ def main():
             {"name": "smduel-resp", "path": "sim/engines/smduel.go", "serves_properties": ["C03", "C12"], "kind_free_text": "deterministic simulation: real secure messaging vs reference chip SM with an active adversary on responses"},
             {"name": "smduel-cmd", "path": "sim/engines/smduel.go", "serves_properties": ["C10"], "kind_free_text": "deterministic simulation: command histories unwrapped by the reference chip, SSC lockstep invariant"},
             {"name": "e2e", "path": "sim/engines/e2e.go", "serves_properties": ["C08"], "kind_free_text": "deterministic simulation: full read against SimChip + SimPKI world"},
+            {"name": "e2e-faults", "path": "sim/engines/e2efaults.go", "serves_properties": ["C11"], "kind_free_text": "deterministic simulation with per-exchange link fault plans over the full read"},
             {"name": "readfile", "path": "sim/engines/readfile.go", "serves_properties": ["C13"], "kind_free_text": "deterministic simulation: real ReadFile vs reference chip with response-splitting behaviours"},
         ],
         "checks": checks,
